@@ -125,6 +125,18 @@ def _run_main(ctx):
             n = rng.choice([16, 32, 64, 128, 256, 512]) + rng.choice([0, 1])
             fs = rng.choice([0.5, 1.0, 2.0, 4.0, 8.0])
             ctx.tally("aligned FFT bins")
+        if rng.random() < 0.15:
+            # a spectrum that already has the NUMBER of bins and the bin WIDTH of the FFT grid but need not lie ON it
+            # (a one-sided FFT estimate of the same record with the mean bin dropped, or bin centres): it is resampled
+            # onto k fs/nfft like any other
+            n = rng.randint(16, 400)
+            N_ = 2 * (n // 2)
+            dfft = fs / N_
+            off = rng.choice([1.0, 1.0, 0.5, 0.0, 2.0])
+            f = [(i + off) * dfft for i in range(N_ // 2)]
+            nf = len(f)
+            gk = "fft-count-and-step(offset %g bins)" % off
+            ctx.tally("spectrum with the FFT grid's count and step, offset %g bins" % off)
         # the ends of the seed range are seeds like any other (0 is falsy in Python: a classic slip)
         seed = rng.choice([0, 0, 1, 2 ** 32 - 1]) if rng.random() < 0.2 else rng.randrange(0, 2 ** 32)
         seed2 = rng.randrange(0, 2 ** 32)
